@@ -1,17 +1,27 @@
 #!/bin/bash
-# Offline setup: regenerate coq/Gen from /repo, full .vo build of the Rocq development, extraction, OCaml model.
-set -e
+# Offline setup: regenerate coq/Gen from /repo, full .vo build of the Rocq development, extraction, OCaml models.
+# Every check rebuilds what it needs by itself; this only pre-builds so that the checks start warm.
 cd "$(dirname "$0")"
 python3 - <<'PY'
-import sys, os
+import sys, os, glob
 sys.path.insert(0, 'harness/py')
 from common import *
 snap = snapshot_repo()
 msgs = regen(snap)
 if msgs: print('translator messages:', msgs)
-ok, log = coq_make([], timeout=3000)
-print(log[-3000:] if not ok else 'coq build ok')
-build_model()
-print('model built')
-sys.exit(0 if ok else 1)
+ok, log = coq_make([], timeout=3300)
+print('coq full build:', 'ok' if ok else 'some files failed (see below); checks rebuild their own targets')
+if not ok:
+    print(log[-3000:])
+try:
+    build_model()
+    print('base model built')
+except Exception as e:
+    print('base model build failed:', e); sys.exit(1)
+# the core libraries must exist
+need = ['GF/Gf.vo', 'GF/TablesOk.vo', 'Raid/GenProofs.vo']
+missing = [n for n in need if not os.path.exists(os.path.join(COQ, n))]
+if missing:
+    print('core files failed to build:', missing); sys.exit(1)
+sys.exit(0)
 PY
